@@ -44,11 +44,14 @@ def compute(R, form, avals, ph, so, meas):
 
 def resp_case(ctx, R, LP, rng, n, given=None, py_override=None, extra_replay=None):
     d = ctx.driver()
-    ph, pat = gens.phases(rng, n)
+    ph, pat = gens.phases(rng, n, pattern=("huge" if rng.random() < 0.1 else None))
     so = str(rng.choice(["Wx", "Wz"]))
     meas = rng.choice(["x", "z", None])
     meas = None if meas is None else str(meas)
     avals = [float(rng.uniform(-1, 1)) for _ in range(3 if n <= 64 else 1)] + [float(rng.choice([1.0, -1.0, 0.0, 0.5, -0.999999999]))]
+    if rng.random() < 0.3:
+        # every a in [-1,1]: also non-zero values far below 1 (squares underflow) and denormals
+        avals.append(float(rng.choice([1e-155, -1e-160, 1e-200, -1e-300, 5e-324, 1e-17, -3e-9])))
     form = FORMS[int(rng.integers(len(FORMS)))]
     if given is not None:
         ph, pat, so, meas, avals = given[:5]
@@ -68,13 +71,13 @@ def resp_case(ctx, R, LP, rng, n, given=None, py_override=None, extra_replay=Non
     py = (py[0], vals_)
     bits = 70
     for a, v in zip(avals, py[1]):
-        mo = d.ask("resp %s %s %d %s %s" % (so, meas or "-", bits, rs(F(a)), rl(F(x) for x in ph)))
+        mo = d.ask("resp %s %s %d %s %s" % (so, meas or "-", bits, rs(F(a)), rl(core.redphase(F(x)) for x in ph)))
         if mo.startswith("err:"):
             ctx.violation("resp:model-refuses", "model refuses valid arguments", dict(replay, model=mo))
             return
         val, err = mo.split()
         mr, mi = core.pcx(val)
-        tol = Fraction(1, 10 ** 12) * (n + 1) + pr(err)
+        tol = Fraction(1, 10 ** 12) * (n + 1) + pr(err) + (n + 1) * core.REDUCTION_SLACK
         v = complex(v)
         diff = max(abs(F(v.real) - mr), abs(F(v.imag) - mi))
         ctx.extra["worst_diff"] = max(ctx.extra.get("worst_diff", 0.0), core.fl(diff))
